@@ -21,7 +21,7 @@ def probe():
     global _PROBE
     if _PROBE is None:
         X.setup()
-        _PROBE = X.structure_probe()
+        _PROBE = X.structure_probe_cached()
     return _PROBE
 
 
